@@ -52,7 +52,16 @@ fn class_members(t: &Tok) -> Vec<Tok> {
             Tok::Fix("false"),
             Tok::Int("i-3".into()),
         ],
-        Tok::Ident(_) => vec![Tok::Ident("facts".into()), Tok::Ident("inty".into()), Tok::Ident("i5x".into())],
+        // (the last four are reserved as function names but are ordinary identifiers to the grammar)
+        Tok::Ident(_) => vec![
+            Tok::Ident("facts".into()),
+            Tok::Ident("inty".into()),
+            Tok::Ident("i5x".into()),
+            Tok::Ident("key".into()),
+            Tok::Ident("val".into()),
+            Tok::Ident("starts".into()),
+            Tok::Ident("ends".into()),
+        ],
         Tok::Index(_) => vec![Tok::Index("17".into())],
         _ => vec![],
     }
@@ -518,6 +527,50 @@ pub fn run(ctx: &Ctx) {
         "tokens",
     );
 
+    // ---- A4: the same table structures metadata values: every accepted sequence that denotes a constant, as written and
+    // wrapped in redundant parentheses / a list / a map, as the value of a metadata item of a rule
+    let mut meta_rules: Vec<Vec<Tok>> = vec![];
+    {
+        let fx = |f: &'static str| Tok::Fix(f);
+        let mut seen = std::collections::BTreeSet::new();
+        for toks in &accepted {
+            if toks.iter().any(|t| matches!(t, Tok::Ident(_) | Tok::Index(_)) || matches!(t, Tok::Fix("if" | "int" | "and" | "==" | "+" | "*" | "&" | "contains" | "in" | "!" | "."))) {
+                continue;
+            }
+            if !seen.insert(text_of(toks)) {
+                continue;
+            }
+            let wrap = |pre: Vec<Tok>, post: Vec<Tok>| -> Vec<Tok> {
+                let mut v = vec![fx("@"), Tok::Ident("m".into()), fx(":")];
+                v.extend(pre);
+                v.extend(toks.iter().cloned());
+                v.extend(post);
+                v.extend([fx(";"), fx("@"), Tok::Ident("name".into()), fx(":"), fx("("), Tok::Str("\"n\"".into()), fx(")"), fx(";"), Tok::Ident("a".into())]);
+                v
+            };
+            meta_rules.push(wrap(vec![], vec![]));
+            meta_rules.push(wrap(vec![fx("(")], vec![fx(")")]));
+            meta_rules.push(wrap(vec![fx("("), fx("(")], vec![fx(")"), fx(")")]));
+            meta_rules.push(wrap(vec![fx("["), fx("(")], vec![fx(")"), fx(","), fx("]")]));
+            meta_rules.push(wrap(vec![fx("{"), Tok::Ident("k".into()), fx(":"), fx("(")], vec![fx(")"), fx("}")]));
+        }
+    }
+    ctx.enumerate(
+        "metadata-value-grouping",
+        meta_rules.len() as u64,
+        false,
+        |i, acc| {
+            let toks = &meta_rules[i as usize];
+            acc.cell("metadata-value", toks.iter().filter(|t| matches!(t, Tok::Fix("("))).count() >= 2);
+            if i % 53 == 0 {
+                acc.sample("metadata-value", || text_of(toks));
+            }
+            super::c14_tokens::check_tokens(toks)
+        },
+        |i| json!({"rule_tokens": meta_rules[i as usize].iter().map(|t| t.text().to_string()).collect::<Vec<_>>(), "text": text_of(&meta_rules[i as usize])}),
+        "rule-tokens",
+    );
+
     // ---- B1: exhaustive depth-2 trees × 3 printers
     let fam = depth2_family();
     ctx.extra("depth2_trees", json!(fam.len()));
@@ -581,6 +634,9 @@ pub fn run(ctx: &Ctx) {
 }
 
 pub fn replay(j: &serde_json::Value) -> Option<Verdict> {
+    if j.get("rule_tokens").is_some() {
+        return super::c14_tokens::replay(j);
+    }
     if let Some(toks) = j.get("tokens").and_then(|t| t.as_array()) {
         // re-lex each token text with the reference lexer to recover its class
         let mut out = vec![];
